@@ -51,12 +51,17 @@ def gen(seed: int, tier: str) -> dict[str, Any]:
     transport = rng.choice(["udp", "udp", "tcp", "secure"])
     n = rng.choice([1, 2, 4, 8])
     clean = rng.random() < 0.15
+    long_run = rng.random() < 0.03
+    if long_run:
+        # a long session on one connection: the one-octet counter of the requests wraps (more than once)
+        n = rng.choice([260, 300, 520])
+        clean = True
     reqs = []
     for i in range(n):
         reqs.append({"kind": rng.choice(["read", "read", "write"]), "obj": rng.choice([11, 0]), "inst": rng.choice([1, 1, 2]),
                      "pid": rng.choice([51, 52, 57, 58]), "caller": rng.randrange(rng.choice([1, 2, 3])),
                      "answer": "ok" if clean else rng.choice(ANSWERS), "ack": "ok" if clean or transport != "udp" else rng.choice(ACKS),
-                     "ans_lat": rng.choice([0.005, 0.005, 0.5, 9.99, 10.01, 12.0])})
+                     "ans_lat": 0.005 if long_run else rng.choice([0.005, 0.005, 0.5, 9.99, 10.01, 12.0])})
     ops = []
     if not clean and rng.random() < 0.4:
         t_close = rng.uniform(0.01, 15.0)
@@ -247,7 +252,7 @@ def run(plan: dict[str, Any]) -> dict[str, Any]:
                         if r["kind"] == "read":
                             rec["value"] = await conn.read_property(ot, r["pid"], object_instance=r["inst"])
                         else:
-                            await conn.write_property(ot, r["pid"], bytes((idx,)), object_instance=r["inst"])
+                            await conn.write_property(ot, r["pid"], bytes((idx & 0xFF,)), object_instance=r["inst"])
                             rec["value"] = b""
                     rec["out"] = "ok"
                 except CommunicationError as exc:
@@ -256,6 +261,8 @@ def run(plan: dict[str, Any]) -> dict[str, Any]:
                 except TimeoutError:
                     rec["out"] = "HANG"
                 except asyncio.CancelledError:
+                    if info.get("final"):
+                        raise               # the harness' own sweep at the end of the run
                     rec["out"] = "CancelledError"
                     results.append(rec)
                     raise
@@ -303,7 +310,8 @@ def run(plan: dict[str, Any]) -> dict[str, Any]:
             loop.at(t0 + op["t"], (lambda o=op: do(o)), label="op")
         callers = sorted({r["caller"] for r in reqs})
         tasks = [loop.create_task(caller(c)) for c in callers]
-        await asyncio.wait(tasks, timeout=600)
+        await asyncio.wait(tasks, timeout=600 + 4 * len(reqs))
+        info["final"] = True
         for t in tasks:
             if not t.done():
                 t.cancel()
